@@ -7,7 +7,7 @@ import sys
 import common, enc, gen, sweep, impl, seq
 import segno
 
-TOP = ['theories/Props/C14.v', 'theories/Tie/TieTables.v']
+TOP = ['theories/Props/C14.v', 'theories/Tie/TieTables.v', 'theories/Tie/TieMaskArg.v', 'theories/Tie/TieVersion.v']
 RULE = ('product of the documented argument domains for make / make_qr / make_micro / make_sequence including boundary and malformed values '
         '(empty content, odd-length kanji, version "m5", mask 8, error "x", numeric strings with sign/space/underscore, bools, case variants), '
         'serializer arguments (scale, border, colours, kind) and the command line; the exception class of the implementation is compared with '
@@ -172,6 +172,34 @@ def run(ctx):
         dist['seq ' + (s if s.startswith('ERR') else 'ok')] = dist.get('seq ' + (s if s.startswith('ERR') else 'ok'), 0) + 1
         if s.startswith('ERR') and s[4:] not in ALLOWED:
             failures.append({'input': {'call': 'make_sequence', 'args': descr(c)}, 'observed': s, 'expected': 'symbols or ValueError / LookupError'})
+    # ---- 3b. symbol_count outside 1..16 is refused whatever else is given (version, mode, level), and the
+    #          sequence model agrees with the implementation on the (version, symbol_count) product
+    seq_cases = []
+    for content in ('1' * 40, 'A' * 40, 'hello world, hello world, hello world', b'\x01' * 40, 'ä' * 31):
+        for sc in (None, -16, -1, 0, 1, 2, 3, 16, 17, 18, 100):
+            for v in (None, 1, 2, 5, 40, '1', '07'):
+                for kw in ({}, {'error': 'H'}, {'mode': 'byte'}, {'boost_error': False}):
+                    if kw and sc not in (0, 17, 2) and not ctx.thorough:
+                        continue
+                    c = dict(content=content, version=v, symbol_count=sc, **kw)
+                    seq_cases.append(c)
+    creq, cexp = [], []
+    for c in seq_cases:
+        n_cases += 1
+        s, q = seq_call({k: v for k, v in c.items() if v is not None})
+        sc = c['symbol_count']
+        if sc is not None and not 1 <= sc <= 16 and s not in ('ERR ValueError', 'ERR DataOverflow'):
+            failures.append({'input': {'call': 'make_sequence', 'args': descr(c)}, 'observed': s[:40] + (' (%d symbols)' % len(q) if q else ''),
+                             'expected': 'ValueError: symbol_count outside 1..16 is always refused'})
+        elif s.startswith('ERR') and s[4:] not in ALLOWED:
+            failures.append({'input': {'call': 'make_sequence', 'args': descr(c)}, 'observed': s, 'expected': 'symbols or ValueError / LookupError'})
+        if not isinstance(c['version'], str):
+            cc = {k: v for k, v in c.items() if v is not None}
+            creq.append(seq.request(cc))
+            cexp.append((c, seq.run_impl(cc)[0]))
+    for (c, e), a in zip(cexp, common.oracle_parallel(creq, chunk=10) if creq else []):
+        if (a.split(' ')[0] != e.split(' ')[0]) or (e.startswith('ERR') and a != e) or (e.startswith('OK') and a != e):
+            corr.append({'case': descr(c), 'impl': e[:120], 'model': a[:120]})
     # ---- 4. serializer arguments
     q = segno.make('SERIALIZER', error='M')
     kinds = ['svg', 'png', 'eps', 'pdf', 'txt', 'pbm', 'pam', 'ppm', 'xpm', 'xbm', 'tex', 'ans']
@@ -219,7 +247,7 @@ def run(ctx):
             outp = os.path.join(d, 'o%d' % i)
             argv = [a.replace('{out}', outp) for a in argv]
             p = subprocess.run([sys.executable, '-m', 'segno.cli'] + argv, capture_output=True, text=True, timeout=60,
-                               env=dict(os.environ, PYTHONPATH='/repo'))
+                               env=dict(os.environ, PYTHONPATH=common.REPO))
             wrote = any(f.startswith('o%d' % i) for f in os.listdir(d))
             if p.returncode == 0 and '-o' in argv and not wrote:
                 failures.append({'input': {'call': 'cli', 'argv': argv}, 'observed': 'exit 0 without output file', 'expected': 'output written'})
